@@ -1646,6 +1646,26 @@ class Infer:
                     work.append(s.callee)
         return seen
 
+    def callers_of(self, f):
+        """All repo functions with a call site whose callee may be f."""
+        idx = getattr(self, "_callers_idx", None)
+        if idx is None:
+            idx = {}
+            for g in list(self.prog.all_funcs()):
+                for s_ in self.sites(g)[0]:
+                    idx.setdefault(s_.callee, set()).add(g)
+            self._callers_idx = idx
+        return idx.get(f, set())
+
+    def helper_of(self, f, owner_short, depth=3):
+        """f is a private helper used only (transitively) by the function named owner_short."""
+        if f.short == owner_short:
+            return True
+        if depth == 0 or not f.name.startswith("_") or f.name.startswith("__"):
+            return False
+        callers = self.callers_of(f)
+        return bool(callers) and all(c is f or self.helper_of(c, owner_short, depth - 1) for c in callers)
+
     def path_to(self, reach, f):
         out = []
         cur = f
